@@ -273,8 +273,11 @@ def gen_disp_cases(ctx, nrng, fn):
                 u = unitary(nrng, dim, cplx)
                 nrows = dim if rep == 0 else ctx.rng.randint(1, dim)
                 u = u[:nrows]
-                mass = [ctx.rng.uniform(0.5, 250.0) for _ in range(N)]
-                s = numpy.array([ctx.rng.choice([-1, 1]) * 10 ** ctx.rng.uniform(-3, 3) for _ in range(nrows)])
+                # masses "of any unit": amu, kg (1e-27), Rydberg a.u. (1e3..1e5); norms of any size
+                munit = ctx.rng.choice([1.0, 1.0, 1.66053906660e-27, 911.44, 10 ** ctx.rng.uniform(-30, 6)])
+                mass = [ctx.rng.uniform(0.5, 250.0) * munit for _ in range(N)]
+                smag = ctx.rng.choice([(-3, 3), (-3, 3), (-12, -6), (3, 9), (-14, 8)])
+                s = numpy.array([ctx.rng.choice([-1, 1]) * 10 ** ctx.rng.uniform(*smag) for _ in range(nrows)])
                 if cplx:
                     s = s * numpy.exp(1j * numpy.array([ctx.rng.uniform(0, 2 * math.pi) for _ in range(nrows)]))
                 m3 = numpy.repeat(mass, 3)
@@ -630,7 +633,7 @@ def run(ctx):
                 "plus unstructured random targets ('general') and seven kinds of dimension mismatch; a case is "
                 "non-trivial if it is a distinct (dimension, field, kind, data) input that is not within 1e-9 of an "
                 "argmax tie.  evec_disp2eig: a_i = s_i M^(-1/2) u_i for random orthonormal u (1-20 atoms, real and "
-                "complex), |s_i| in 1e-3..1e3 with random sign/phase, masses in 0.5..250, full and partial bases, "
+                "complex), |s_i| in 1e-14..1e9 with random sign/phase, masses 0.5..250 in units of amu / kg / Ry a.u. / random 1e-30..1e6, full and partial bases, "
                 "column/mass count mismatches.  evec_load: files printed from random numerals (1-6 q-points, 3-60 "
                 "modes), the shipped tests/data/pwscf.eig, wrong (nq, np) readings of those files, and random "
                 "mutations of header lines for the two regexes.")
